@@ -28,6 +28,8 @@ type opSpec struct {
 type endSpec struct {
 	Reads  []opSpec `json:"reads"`
 	Writes []opSpec `json:"writes"`
+	Reads2  []opSpec `json:"reads2"`  // a second, concurrent reader on the same end (the wrapper serialises them)
+	Writes2 []opSpec `json:"writes2"` // a second, concurrent writer
 }
 
 type scenario struct {
@@ -75,6 +77,16 @@ func gen(r *harn.Rng, tier string) interface{} {
 		}
 		for i, n := 0, r.Range(0, 4); i < n; i++ {
 			sc.Ends[e].Writes = append(sc.Ends[e].Writes, mkOp(true))
+		}
+		if r.Bool(0.25) {
+			for i, n := 0, r.Range(1, 3); i < n; i++ {
+				sc.Ends[e].Reads2 = append(sc.Ends[e].Reads2, mkOp(false))
+			}
+		}
+		if r.Bool(0.15) {
+			for i, n := 0, r.Range(1, 2); i < n; i++ {
+				sc.Ends[e].Writes2 = append(sc.Ends[e].Writes2, mkOp(true))
+			}
 		}
 	}
 	if r.Bool(0.12) {
@@ -207,7 +219,8 @@ func run(env *simrt.Env, sci interface{}) {
 		if write {
 			dl = wd
 		}
-		if !dl.IsZero() {
+		shared := (write && len(sc.Ends[e].Writes2) > 0) || (!write && len(sc.Ends[e].Reads2) > 0)
+		if !dl.IsZero() && !shared { // with two workers on one direction the next operation may already have forced its own deadline
 			env.Fail("C17/leftover-deadline", "after end %d %s returned (%d, %v) the wrapped connection still carries a %s deadline (%v)", e, opName(write), res.n, res.err, opName(write), dl)
 			return res
 		}
@@ -223,6 +236,40 @@ func run(env *simrt.Env, sci interface{}) {
 						return
 					}
 					doOp(e, false, o, nil)
+				}
+			}))
+		}
+		if len(sc.Ends[e].Reads2) > 0 {
+			hs = append(hs, env.Go(fmt.Sprintf("reader%db", e), func() {
+				for _, o := range sc.Ends[e].Reads2 {
+					env.Sleep(time.Duration(o.SleepNs))
+					if env.Failed() {
+						return
+					}
+					doOp(e, false, o, nil)
+				}
+			}))
+		}
+		if len(sc.Ends[e].Writes2) > 0 {
+			var payloads2 [][]byte
+			for _, o := range sc.Ends[e].Writes2 {
+				p := make([]byte, o.Len)
+				for i := range p {
+					p[i] = nextByte
+					nextByte++
+					if nextByte == 0 {
+						nextByte = 1
+					}
+				}
+				payloads2 = append(payloads2, p)
+			}
+			hs = append(hs, env.Go(fmt.Sprintf("writer%db", e), func() {
+				for i, o := range sc.Ends[e].Writes2 {
+					env.Sleep(time.Duration(o.SleepNs))
+					if env.Failed() {
+						return
+					}
+					doOp(e, true, o, append([]byte(nil), payloads2[i]...))
 				}
 			}))
 		}
@@ -266,8 +313,16 @@ func run(env *simrt.Env, sci interface{}) {
 	// liveness: every operation whose context is done has returned
 	for e := 0; e < 2; e++ {
 		for k := 0; k < 2; k++ {
+			// operations of one direction are serialised by the wrapper: an operation queued behind
+			// another one that legitimately blocks with a live context cannot return yet
+			liveBlocker := false
+			for _, r := range results[e][k] {
+				if !r.returned && r.ctx.Err() == nil {
+					liveBlocker = true
+				}
+			}
 			for i, r := range results[e][k] {
-				if !r.returned && r.ctx.Err() != nil && !faulty[e] {
+				if !r.returned && r.ctx.Err() != nil && !faulty[e] && !liveBlocker {
 					env.Fail("C17/cancelled-operation-stuck", "end %d %s #%d is still blocked at quiescence although its context is done (%v)", e, opName(k == 1), i, r.ctx.Err())
 					return
 				}
@@ -278,6 +333,34 @@ func run(env *simrt.Env, sci interface{}) {
 	for e := 0; e < 2; e++ {
 		if faulty[0] || faulty[1] {
 			break
+		}
+		if len(sc.Ends[e].Reads2) > 0 || len(sc.Ends[e].Writes2) > 0 {
+			// two workers on one direction: the harness cannot order their reports; totals must still agree
+			if sc.Flavor != "netctx-packet" {
+				_, _, received, moved := streams[e].Snapshot()
+				nR, nW, allW := 0, 0, true
+				for _, r := range results[e][0] {
+					if r.returned {
+						nR += r.n
+					}
+				}
+				for _, r := range results[e][1] {
+					if r.returned {
+						nW += r.n
+					} else {
+						allW = false
+					}
+				}
+				if nR != len(received) {
+					env.Fail("C17/read-data-lost", "end %d (two readers): the wrapped connection returned %d bytes to the wrapper, the wrapper reported %d bytes to its callers", e, len(received), nR)
+					return
+				}
+				if nW > len(moved) || (allW && nW != len(moved)) {
+					env.Fail("C17/write-misreported", "end %d (two writers): %d bytes reported written, %d bytes moved into the pipe", e, nW, len(moved))
+					return
+				}
+			}
+			continue
 		}
 		if sc.Flavor == "netctx-packet" {
 			_, _, received, moved := packets[e].Snapshot()
@@ -441,6 +524,18 @@ func shrinkSc(sci interface{}) []interface{} {
 		c := *sc
 		c.SetErr = false
 		out = append(out, &c)
+	}
+	for e := 0; e < 2; e++ {
+		if len(sc.Ends[e].Reads2) > 0 {
+			c := *sc
+			c.Ends[e].Reads2 = nil
+			out = append(out, &c)
+		}
+		if len(sc.Ends[e].Writes2) > 0 {
+			c := *sc
+			c.Ends[e].Writes2 = nil
+			out = append(out, &c)
+		}
 	}
 	return out
 }
